@@ -26,17 +26,15 @@ PROP = "C31"
 
 
 def run(c):
-    d = L.build_pipeline(c.tier, c.seed)
+    d, fd, ed = A.together(lambda: L.build_pipeline(c.tier, c.seed), lambda: A.faults_pipeline(c.tier, c.seed), lambda: A.events_pipeline(c.tier, c.seed))
     L.evaluate(c, PROP, d)
     pred, mut = M.CONTROLS[PROP]
     controls = [L.negative_control(d, c.seed, pred, mut)]
-    ed = A.events_pipeline(c.tier, c.seed)
     res, cells = A.eval_events(c, ed)
     bad = set(case for _, _, case in res["fails"])
     tp = os.path.join(ed, "trace.ndjson")
     controls.append(A.trace_negative_control(tp, bad, c.seed, "Step_C31_RequestEvents", A.m_drop_event))
     controls.append(A.trace_negative_control(tp, bad, c.seed + 1, "Step_C31_RequestEvents", A.m_event_before_commit))
-    fd = A.faults_pipeline(c.tier, c.seed)
     programs, cases, results, accepted = A.eval_faults(c, PROP, fd)
     controls.append(A.fault_negative_control(c, PROP, programs, cases, results, accepted, c.seed))
     c.set("rule", "evaluations = matrix cells replayed + (request, fault position, error kind) cases; distinct_nontrivial = cells that prescribe at least one "
